@@ -138,9 +138,13 @@ def gen_case(rng: random.Random, tier: str) -> dict:
             steps.append({"op": "damage", "page": rng.randrange(1000), "variant": rng.randrange(1000)})
         elif x < 0.5:
             steps.append({"op": "repair", "page": rng.randrange(1000)})
-        elif x < 0.7:
+        elif x < 0.58:
+            steps.append({"op": "touch", "page": rng.randrange(1000), "word": rng.choice(gen.PLAIN)})
+        elif x < 0.74:
             steps.append({"op": "reindex"})
-        elif x < 0.78:
+            if rng.random() < 0.3:
+                steps.append({"op": "reindex"})  # immediately again: a refusal must be repeated
+        elif x < 0.8:
             steps.append({"op": "reindex", "paths": {"pick": [rng.randrange(1000)]}})
         elif x < 0.86:
             steps.append({"op": "create"})
@@ -253,6 +257,10 @@ def execute(case: dict, scratch: str) -> dict:
         return rec.result()
 
     good = ob.read_all_files(sim.zdir)  # error-free content, ZIDs included
+    # content of every page as of the last index command that succeeded and
+    # covered it: a page whose bytes differ from this has NOT been indexed yet,
+    # whatever zorg's own book-keeping (file_hash.json) says
+    indexed: dict[str, bytes] = {k: v for k, v in good.items() if k.endswith(".zo")}
 
     # -------------------------------------------------- (i) compile totality
     fuzz_dir = os.path.join(scratch, "fuzz")
@@ -314,6 +322,23 @@ def execute(case: dict, scratch: str) -> dict:
             rec.note("damage", page=p, kinds=v["kinds"])
             rec.probe("fault:page-damage")
             continue
+        if op == "touch":
+            if not pages:
+                continue
+            p = pages[st["page"] % len(pages)]
+            full = os.path.join(sim.zdir, p)
+            if parser_reports_errors(full) is False:
+                with core._real_open(full, "rb") as f:
+                    data = f.read()
+                if data.endswith(b"\n"):
+                    with core._real_open(full, "ab") as f:
+                        f.write(("\n- touched " + st["word"] + "\n").encode())
+                    if parser_reports_errors(full) is False:
+                        rec.probe("valid-page-edited-next-to-broken-one")
+                    else:
+                        with core._real_open(full, "wb") as f:
+                            f.write(data)
+            continue
         if op == "repair":
             if not pages:
                 continue
@@ -331,7 +356,8 @@ def execute(case: dict, scratch: str) -> dict:
             if st.get("paths") and not paths_:
                 continue
             real = {"op": "reindex", "paths": paths_} if paths_ else {"op": "reindex"}
-            processed = _idx.pages_to_process(sim, paths_ or pages)
+            current = ob.read_all_files(sim.zdir)
+            processed = [p for p in (paths_ or pages) if current.get(p) != indexed.get(p)]
         else:
             real = {"op": "create", "force": bool(st.get("force"))}
             processed = list(pages)
@@ -403,6 +429,11 @@ def execute(case: dict, scratch: str) -> dict:
                 if p in wl_before:
                     rec.probe("whitelisted-page-repaired-and-indexed-in-full")
         rec.probe("index-command-succeeded")
+        now = ob.read_all_files(sim.zdir)
+        for p in processed:
+            indexed[p] = now[p]
+        if real["op"] == "create":
+            indexed = {k: v for k, v in now.items() if k.endswith(".zo")}
     return rec.result()
 
 
